@@ -710,4 +710,123 @@ theorem endLG_ok (o : Ops) (s s' : MSt) (kind : Str) (h : endLG o s kind = .ok s
             exact ⟨s1.c, s1.stack, hf, h.symm, hst⟩
           · cases h
 
+/-! ### which kinds the stage-4 / 5 / 7 handlers accept: functions of the kind alone (the handlers are total) -/
+
+/-- the stage-7 kinds (plus cloud) -/
+def akOk (kind : Str) : Bool :=
+  kind == S "author" || kind == S "contributor" || kind == S "name" || kind == S "email" || kind == S "url" || kind == S "publisher" || kind == S "owner" || kind == S "cloud"
+
+theorem startAuthorKinds_isSome (c : Core) (kind : Str) (a : List (Str × Str)) : (startAuthorKinds c kind a).isSome = akOk kind := by
+  unfold startAuthorKinds akOk
+  by_cases h1 : (kind == S "author") = true
+  · simp [h1]
+  by_cases h2 : (kind == S "contributor") = true
+  · simp [h1, h2]
+  by_cases h3 : (kind == S "name") = true
+  · simp [h1, h2, h3]
+  by_cases h4 : (kind == S "email") = true
+  · simp [h1, h2, h3, h4]
+  by_cases h5 : (kind == S "url") = true
+  · simp [h1, h2, h3, h4, h5]
+  by_cases h6 : (kind == S "publisher") = true
+  · simp [h1, h2, h3, h4, h5, h6]
+  by_cases h7 : (kind == S "owner") = true
+  · simp [h1, h2, h3, h4, h5, h6, h7]
+  by_cases h8 : (kind == S "cloud") = true
+  · simp [h1, h2, h3, h4, h5, h6, h7, h8]
+  · simp [h1, h2, h3, h4, h5, h6, h7, h8]
+
+theorem endAuthorKinds_isSome (o : Ops) (s : MSt) (kind : Str) : (endAuthorKinds o s kind).isSome = (akOk kind || kind == S "generator") := by
+  unfold endAuthorKinds akOk
+  by_cases h1 : (kind == S "author") = true
+  · simp [h1]
+  by_cases h2 : (kind == S "contributor") = true
+  · simp [h1, h2]
+  by_cases h3 : (kind == S "name") = true
+  · simp [h1, h2, h3]
+  by_cases h4 : (kind == S "email") = true
+  · simp [h1, h2, h3, h4]
+  by_cases h5 : (kind == S "url") = true
+  · simp [h1, h2, h3, h4, h5]
+  by_cases h6 : (kind == S "publisher") = true
+  · simp [h1, h2, h3, h4, h5, h6]
+  by_cases h7 : (kind == S "owner") = true
+  · simp [h1, h2, h3, h4, h5, h6, h7]
+  by_cases h8 : (kind == S "cloud") = true
+  · simp [h1, h2, h3, h4, h5, h6, h7, h8]
+  by_cases h9 : (kind == S "generator") = true
+  · simp [h1, h2, h3, h4, h5, h6, h7, h8, h9]
+  · simp [h1, h2, h3, h4, h5, h6, h7, h8, h9]
+
+/-- the stage-4 / 5 / 7 kinds -/
+def lgOk (kind : Str) : Bool :=
+  kind == S "link" || kind == S "guid" || kind == S "category" || kind == S "enclosure" || kind == S "generator" || akOk kind
+
+theorem ak_not_generator (kind : Str) (hg : (kind == S "generator") = false) : (akOk kind || kind == S "generator") = akOk kind := by simp [hg]
+
+theorem startLG_isOk (o : Ops) (c : Core) (kind : Str) (a : List (Str × Str)) : (startLG o c kind a).isOk = lgOk kind := by
+  unfold startLG lgOk
+  by_cases h1 : (kind == S "link") = true
+  · simp only [h1, ↓reduceIte, Bool.true_or]
+    unfold startLink
+    simp only
+    split
+    · rfl
+    · split <;> rfl
+  · simp only [h1, Bool.false_eq_true, ↓reduceIte, Bool.false_or]
+    by_cases h2 : (kind == S "guid") = true
+    · simp only [h2, ↓reduceIte, Bool.true_or]; rfl
+    · simp only [h2, Bool.false_eq_true, ↓reduceIte, Bool.false_or]
+      by_cases h3 : (kind == S "category") = true
+      · simp only [h3, ↓reduceIte, Bool.true_or]; rfl
+      · simp only [h3, Bool.false_eq_true, ↓reduceIte, Bool.false_or]
+        by_cases h4 : (kind == S "enclosure") = true
+        · simp only [h4, ↓reduceIte, Bool.true_or]; rfl
+        · simp only [h4, Bool.false_eq_true, ↓reduceIte, Bool.false_or]
+          by_cases h5 : (kind == S "generator") = true
+          · simp only [h5, ↓reduceIte, Bool.true_or]; rfl
+          · simp only [h5, Bool.false_eq_true, ↓reduceIte, Bool.false_or]
+            rw [← startAuthorKinds_isSome c kind a]
+            cases startAuthorKinds c kind a <;> rfl
+
+theorem endLG_isOk (o : Ops) (s : MSt) (kind : Str) :
+    (match endLG o s kind with | .ok _ => true | .unmodelled _ => false) = lgOk kind := by
+  unfold endLG lgOk
+  by_cases h1 : (kind == S "link") = true
+  · simp only [h1, ↓reduceIte, Bool.true_or]
+  · simp only [h1, Bool.false_eq_true, ↓reduceIte, Bool.false_or]
+    by_cases h2 : (kind == S "guid") = true
+    · simp only [h2, ↓reduceIte, Bool.true_or]
+    · simp only [h2, Bool.false_eq_true, ↓reduceIte, Bool.false_or]
+      by_cases h3 : (kind == S "category") = true
+      · simp only [h3, ↓reduceIte, Bool.true_or]
+      · simp only [h3, Bool.false_eq_true, ↓reduceIte, Bool.false_or]
+        by_cases h4 : (kind == S "enclosure") = true
+        · simp only [h4, ↓reduceIte, Bool.true_or]
+        · simp only [h4, Bool.false_eq_true, ↓reduceIte, Bool.false_or]
+          have hs := endAuthorKinds_isSome o s kind
+          by_cases h5 : (kind == S "generator") = true
+          · simp only [h5, Bool.or_true, Bool.true_or] at hs ⊢
+            cases hk : endAuthorKinds o s kind with
+            | none => rw [hk] at hs; cases hs
+            | some s1 => rfl
+          · have h5' : (kind == S "generator") = false := by simpa using h5
+            simp only [h5', Bool.or_false, Bool.false_or] at hs ⊢
+            rw [← hs]
+            cases endAuthorKinds o s kind <;> rfl
+
+/-- every kind the translator can put into the table is one the model accepts -/
+theorem table_kinds_ok : Gen.Mixin.stage4L.all (fun e => lgOk e.2) = true := by decide +kernel
+
+theorem lgKind_ok (h kind : Str) (hk : lgKind h = some kind) : lgOk kind = true := by
+  unfold lgKind at hk
+  cases hf : Gen.Mixin.stage4L.find? (·.1 == h) with
+  | none => rw [hf] at hk; cases hk
+  | some e =>
+    rw [hf] at hk
+    have hm := List.mem_of_find?_eq_some hf
+    have hall := List.all_eq_true.mp table_kinds_ok e hm
+    simp only [Option.map_some, Option.some.injEq] at hk
+    rw [← hk]; exact hall
+
 end FeedVerif.Mixin
